@@ -1,4 +1,5 @@
 import TR.Lemmas.Budget
+import TR.Lemmas.BudgetTrace
 /-!
 # C08 — the retry budget never grants more retries than it was funded
 
@@ -73,5 +74,78 @@ example :
     let s := runAll cfg [[.W], [.W, .D]] [0, 1, 1, 0]
     s.granted = 1 ∧ s.tokens = 1000 ∧ s.deposits = 1 ∧
     (s.threads.map (·.out)) = [[some false], [some true, none]] := by decide
+
+/-! ## Protocol level: every value-level trace of the atomics that `checkTrace` accepts
+
+The theorems above are about the step-by-step transcription of `budget.rs`. The ones below do not depend on how an
+implementation sequences its loads and retries: they hold for **every** trace — any number of threads, calls and
+atomic operations, in any interleaving — in which each write to the balance is a single atomic read-modify-write
+of the shape the protocol allows (`TR.Model.BudgetTrace`). The harness records such a trace from the hooked atomics
+on every scheduled run and the model's checker decides it; a rewrite that keeps the protocol keeps these theorems
+applicable even when its step sequence no longer matches the transcription. -/
+
+/-- Conservation, stated over what the callers saw: (`try_withdraw` calls that returned true) × cost + the balance left
+in the cell ≤ initial balance + (`deposit` calls made) × amount. -/
+theorem trace_conservation (cfg : Cfg) (hwf : WF cfg) (tr : List Item) (cs : CS) (h : checkTrace cfg tr = some cs) :
+    grants tr * cfg.cost + finalTokens cfg.initial tr ≤ cfg.initial + depositCalls tr * cfg.amount := by
+  obtain ⟨hi, ht, hr, hb⟩ := crun_inv cfg tr (cinit cfg) cs (cinit_inv cfg hwf) h
+  have h1 := hi.cons; have h2 := hi.retW; have _h3 := hi.depA; have h4 := hi.depB
+  have hr' : cs.retTrue = grants tr := by simpa [cinit] using hr
+  have hb' : cs.begunD = depositCalls tr := by simpa [cinit] using hb
+  have ht' : cs.tokens = finalTokens cfg.initial tr := by simpa [cinit] using ht
+  rw [← hr', ← hb', ← ht']
+  have a : cs.retTrue * cfg.cost ≤ cs.effW * cfg.cost := Nat.mul_le_mul_right _ (by omega)
+  have b : cs.effD * cfg.amount ≤ cs.begunD * cfg.amount := Nat.mul_le_mul_right _ (by omega)
+  omega
+
+/-- … and at every point of an accepted trace: whatever has been granted and deposited up to any split `a ++ b`
+satisfies the same inequality with the balance the cell held at that point. -/
+theorem trace_conservation_prefix (cfg : Cfg) (hwf : WF cfg) (a b : List Item) (cs : CS)
+    (h : checkTrace cfg (a ++ b) = some cs) :
+    grants a * cfg.cost + finalTokens cfg.initial a ≤ cfg.initial + depositCalls a * cfg.amount ∧
+      finalTokens cfg.initial a ≤ cfg.maxTokens := by
+  obtain ⟨cs1, hi, ht, hr, hb, _⟩ := crun_split cfg a b (cinit cfg) cs (cinit_inv cfg hwf) h
+  have h1 := hi.cons; have h2 := hi.retW; have _h3 := hi.depA; have h4 := hi.depB; have h5 := hi.cap
+  have hr' : cs1.retTrue = grants a := by simpa [cinit] using hr
+  have hb' : cs1.begunD = depositCalls a := by simpa [cinit] using hb
+  have ht' : cs1.tokens = finalTokens cfg.initial a := by simpa [cinit] using ht
+  rw [← hr', ← hb', ← ht']
+  have x : cs1.retTrue * cfg.cost ≤ cs1.effW * cfg.cost := Nat.mul_le_mul_right _ (by omega)
+  have y : cs1.effD * cfg.amount ≤ cs1.begunD * cfg.amount := Nat.mul_le_mul_right _ (by omega)
+  omega
+
+/-- The balance left in the cell never exceeds the maximum, and the AIMD limit never exceeds its own. -/
+theorem trace_capped (cfg : Cfg) (hwf : WF cfg) (tr : List Item) (cs : CS) (h : checkTrace cfg tr = some cs) :
+    finalTokens cfg.initial tr ≤ cfg.maxTokens ∧ cs.limit ≤ cfg.maxLimit := by
+  obtain ⟨hi, ht, _, _⟩ := crun_inv cfg tr (cinit cfg) cs (cinit_inv cfg hwf) h
+  have ht' : cs.tokens = finalTokens cfg.initial tr := by simpa [cinit] using ht
+  exact ⟨ht' ▸ hi.cap, hi.lim⟩
+
+/-- Linearizable: the checker's ghost list orders the calls by their linearisation points (a refusal at the read that
+saw too little, a grant or a deposit at its one write); executing that list one call at a time on the sequential
+budget reproduces every result and ends in the balance the cell holds. -/
+theorem trace_linearizable (cfg : Cfg) (hwf : WF cfg) (tr : List Item) (cs : CS) (h : checkTrace cfg tr = some cs) :
+    replay cfg cfg.initial cs.lin = some (finalTokens cfg.initial tr) := by
+  obtain ⟨hi, ht, _, _⟩ := crun_inv cfg tr (cinit cfg) cs (cinit_inv cfg hwf) h
+  have ht' : cs.tokens = finalTokens cfg.initial tr := by simpa [cinit] using ht
+  exact ht' ▸ hi.lin
+
+/-- Non-vacuity (a trace recorded from the real token bucket, two threads contending for the last token: both load,
+one compare-exchange succeeds, the other fails, reloads, is refused, then deposits): accepted, one grant. -/
+example :
+    let cfg : Cfg := { maxTokens := 2000, initial := 1000 }
+    let tr : List Item := [.begin 1 .W, .begin 0 .W, .tok 0 .load 1000 1000 true, .tok 1 .load 1000 1000 true,
+      .tok 1 .cas 1000 0 true, .fin 1 (some true), .tok 0 .cas 0 0 false, .tok 0 .load 0 0 true, .fin 0 (some false),
+      .begin 0 .D, .tok 0 .rmw 0 1000 true, .fin 0 none]
+    (checkTrace cfg tr).isSome = true ∧ grants tr = 1 ∧ depositCalls tr = 1 ∧ finalTokens cfg.initial tr = 1000 := by
+  decide
+
+/-- The pinned-tree deposit (a load followed by a plain store) is rejected at its store, even in a run without
+contention; so is a withdrawal that reports success without having written. -/
+example :
+    let cfg : Cfg := { maxTokens := 2000, initial := 1000 }
+    cfirstBad cfg (cinit cfg) 0 [.begin 0 .D, .tok 0 .load 1000 1000 true, .tok 0 .store 1000 2000 true, .fin 0 none] = some 2 ∧
+    cfirstBad cfg (cinit cfg) 0 [.begin 0 .W, .tok 0 .load 1000 1000 true, .fin 0 (some true)] = some 2 := by
+  decide
 
 end TR.Props.C08
